@@ -117,4 +117,16 @@ Section NextHop.
     assert (j < length (follow k s))%nat by (apply nth_error_Some; congruence).
     destruct (follow_delivers k s p Hs Hl) as (Hlen & _). rewrite Q1 in Q2. inversion Q2; subst. lia.
   Qed.
+  Lemma follow_head f u : exists tl, follow f u = u :: tl.
+  Proof. destruct f; cbn [follow]; [eauto|]. destruct (sp u) as [[|? [|? ?]]|]; eauto. Qed.
+
+  (* consecutive visited nodes are joined by edges *)
+  Lemma follow_walk : forall f u, is_walk (follow f u).
+  Proof.
+    induction f as [|f IH]; intros u; cbn [follow]; [exact I|].
+    destruct (sp u) as [[|a [|b rest]]|] eqn:E; try exact I.
+    destruct (follow_head f b) as (tl & Ef). pose proof (IH b) as Hw. rewrite Ef in *. cbn [is_walk]. split; [|exact Hw].
+    pose proof (sp_path _ _ E) as Hp. destruct (path_head _ _ Hp) as (r' & Er). inversion Er; subst a r'.
+    destruct Hp as (Hw' & _). cbn [is_walk] in Hw'. tauto.
+  Qed.
 End NextHop.
